@@ -1,6 +1,10 @@
 package rules
 
-import "verifcheck/core"
+import (
+	"strings"
+
+	"verifcheck/core"
+)
 
 // Names that rules compare on rendered access paths or function names without
 // resolving them through Prog.Field / Prog.Func themselves. Declaring them
@@ -40,6 +44,10 @@ var extraFuncAnchors = [][2]string{
 
 // DeclareAnchors resolves the names above once.
 func DeclareAnchors(p *core.Prog) {
+	for k := range fieldRoles { // "rtph264.fragments": the reviewed roles of the decoders' buffers
+		i := strings.IndexByte(k, '.')
+		p.Field("pkg/format/"+k[:i], "Decoder", k[i+1:])
+	}
 	for _, a := range extraFieldAnchors {
 		p.Field(a[0], a[1], a[2])
 	}
